@@ -1387,6 +1387,206 @@ def shrink_case(batch, case, diff):
     return case
 
 
+# ------------------------------------------------------------------ phase 6 (G1/io): directed batch beyond the driver's reach
+# Python-side writer `fcv.vtkxml_p6g1i` (search, not correspondence; its payload encoder is cross-checked against the
+# Lean spec writer `c05enc` on small arrays): arrays of > 65536 items, compression blocks of VTK's default size and
+# many blocks per array, block sizes that are no multiple of the item size at realistic lengths, appended arrays
+# stored in an order different from the document order of their <DataArray> elements, other legal text layouts
+# (indentation, one value per line / six per line, exponent spelling, attribute order, RangeMin/RangeMax), and
+# reader state (two files read alternately, one path re-written with new content).
+# FCV_P6G_OFF=1 switches the batch off (used to show that a mutant is seen by this batch only).
+P6G_OFF = os.environ.get("FCV_P6G_OFF") == "1"
+P6_SMALL = {"vtu": {"npts": 9, "ncells": 7, "types": [5, 9, 5, 3, 1, 10]},
+            "vtp": {"npts": 8, "Verts": [2, 1], "Lines": [3, 2], "Polys": [2, 4], "Strips": [1, 5]},
+            "vti": {"cells": [2, 1, 0], "lo": [1, 0, -2]}, "vtr": {"cells": [2, 0, 3]}, "vts": {"cells": [1, 2, 1]}}
+P6_LARGE = {"vtu": {"npts": 70001, "ncells": 23000, "types": [5, 9, 5, 3, 1, 10]},
+            "vtp": {"npts": 66000, "Verts": [66000, 1], "Lines": [1000, 2]},
+            "vti": {"cells": [40, 40, 40]}, "vtr": {"cells": [260, 260, 0]}, "vts": {"cells": [70000, 0, 0]}}
+P6_FIELDS = [["P", "pa", "Float64", 3, 1], ["P", "pb", "UInt8", 1, 2], ["C", "ca", "Int16", 9, 3], ["C", "cb", "Float32", 1, 4],
+             ["P", "pc", "UInt64", 1, 5], ["C", "cc", "Int8", 3, 6]]
+P6_LARGE_CFGS = [{"fmt": "appraw", "comp": "zlib", "B": 32768, "hs": 8, "bo": "le"},
+                 {"fmt": "app64", "comp": "lz4" if HAVE_LZ4 else "zlib", "B": 65536, "hs": 4, "bo": "be"},
+                 {"fmt": "inline", "comp": None, "B": 0, "hs": 4, "bo": "be"},
+                 {"fmt": "inline", "comp": "lzma", "B": 100003, "hs": 8, "bo": "le"},
+                 {"fmt": "ascii", "comp": None, "B": 0, "hs": 4, "bo": "le"},
+                 {"fmt": "app64", "comp": None, "B": 0, "hs": 8, "bo": "le"},
+                 {"fmt": "appraw", "comp": None, "B": 0, "hs": 4, "bo": "be"}]
+
+
+def p6_eval(case, tmp, name="p6"):
+    """write the file of `case`, read it -> (differences, implementation observables, expected observables)"""
+    from fcv import vtkxml_p6g1i as W
+    ds = W.build(case)
+    path = os.path.join(tmp, f"{name}.{case['kind']}")
+    with open(path, "wb") as fh:
+        fh.write(W.file_content(case, ds))
+    try:
+        impl = obs_impl(path)
+    finally:
+        os.remove(path)
+    exp = W.expected(case, ds)
+    if case["kind"] in STRUCTURED:
+        impl = structured_view({"kind": case["kind"]}, impl)
+    else:
+        impl.pop("points64", None)
+    return diff_obs(impl, exp), impl, exp
+
+
+def p6_shrink(case, tmp):
+    """smaller mesh / fewer fields while the file still reads differently"""
+    def bad(c):
+        try:
+            return bool(p6_eval(c, tmp, "p6s")[0])
+        except Exception:  # noqa: BLE001
+            return False
+    cur = case
+    for _ in range(12):
+        cands = []
+        m = cur["mesh"]
+        if cur["kind"] == "vtu" and m["npts"] > 9:
+            cands.append(dict(cur, mesh=dict(m, npts=max(9, m["npts"] // 4), ncells=max(7, m["ncells"] // 4))))
+        elif cur["kind"] == "vtp" and m["npts"] > 8:
+            cands.append(dict(cur, mesh={k: ([max(1, v[0] // 4), v[1]] if isinstance(v, list) else max(8, v // 4)) for k, v in m.items()}))
+        elif cur["kind"] in STRUCTURED and max(m["cells"]) > 3:
+            cands.append(dict(cur, mesh=dict(m, cells=[c if c <= 3 else max(3, c // 4) for c in m["cells"]])))
+        if len(cur["fields"]) > 1:
+            cands.append(dict(cur, fields=cur["fields"][:len(cur["fields"]) // 2]))
+            cands.append(dict(cur, fields=cur["fields"][len(cur["fields"]) // 2:]))
+        for c in cands:
+            if bad(c):
+                cur = c
+                break
+        else:
+            break
+    return cur
+
+
+def p6_report(ctx, case, d, impl, exp, tmp, what):
+    small = p6_shrink(case, tmp)
+    if small is not case:
+        d2, impl2, exp2 = p6_eval(small, tmp, "p6s")
+        if d2:
+            case, d, impl, exp = small, d2, impl2, exp2
+    ctx.violation(dict(case, op="p6g1i"), brief(impl, d), brief(exp, d),
+                  what=f"{what}: read_field_data differs from the logical content of the file in {d[:6]} "
+                       f"(cfg {cfg_key(dict(case['cfg'], joint=case['cfg'].get('joint', True)))}, opts {case.get('opts')})")
+
+
+def p6_cases(ctx):
+    """[(case, tags)] of the directed batch"""
+    from fcv import vtkxml_p6g1i as W
+    rng = ctx.rng
+    out = []
+
+    def cfg(fmt, comp=None, B=0, hs=4, bo="le", joint=True):
+        return {"fmt": fmt, "comp": comp, "B": B, "hs": hs, "bo": bo, "joint": joint}
+    # A. appended arrays stored in an order different from the document order (offsets are explicit attributes)
+    i = 0
+    for kind in P6_SMALL:
+        for fmt in ("app64", "appraw"):
+            for comp in (None, CODECS[(i // 3) % len(CODECS)]):
+                for order in ("reverse", "rot", "evenodd"):
+                    i += 1
+                    c = cfg(fmt, comp, B=[7, 16, 5][i % 3], hs=(4, 8)[i % 2], bo=("le", "be")[(i // 2) % 2])
+                    out.append(({"kind": kind, "mesh": P6_SMALL[kind], "fields": P6_FIELDS, "cfg": c,
+                                 "opts": {"app_order": order, "attrs": i % 3, "idx": [["Int32", "UInt32", "UInt8"], ["Int64", "Int64", "UInt8"],
+                                                                                      ["UInt16", "Int32", "Int64"]][i % 3]}},
+                                ["p6-appended-order-" + order]))
+    # B. other legal text layouts of ascii / inline data and of the <DataArray> attributes
+    for kind in P6_SMALL:
+        for ws in range(5):
+            for sp in ("repr", "exp"):
+                i += 1
+                out.append(({"kind": kind, "mesh": P6_SMALL[kind], "fields": P6_FIELDS, "cfg": cfg("ascii", bo=("le", "be")[i % 2]),
+                             "opts": {"ws": ws, "fspell": sp, "attrs": i % 3}},
+                            [f"p6-ascii-layout-{ws}", "p6-ascii-floats-" + sp, f"p6-attr-style-{i % 3}"]))
+        for ws in range(3):
+            for attrs in range(3):
+                i += 1
+                c = cfg("inline", (None, CODECS[i % len(CODECS)])[i % 2], B=11, hs=(4, 8)[i % 2], bo=("le", "be")[(i // 2) % 2],
+                        joint=bool(i % 3))
+                out.append(({"kind": kind, "mesh": P6_SMALL[kind], "fields": P6_FIELDS, "cfg": c, "opts": {"ws": ws, "attrs": attrs}},
+                            [f"p6-inline-layout-{ws}", f"p6-attr-style-{attrs}"]))
+    # C. > 1000 items per array, many (> 16) compression blocks, block size with and without the item size as a factor,
+    #    all ten types x scalar / vector / tensor, big endian
+    fields = [["P" if (k + j) % 2 else "C", f"f{k}_{nc}", t, nc, 20 + 3 * k + j] for k, t in enumerate(TYPE_NAMES)
+              for j, nc in enumerate((1, 3, 9))]
+    combos = [(codec, B) for codec in CODECS for B in (4096, 1001)]
+    for j, (codec, B) in enumerate(combos):
+        for bo in (("be",) if ctx.tier == "quick" else ("be", "le")):
+            fmt = ("inline", "app64", "appraw")[j % 3]
+            kind = ("vtu", "vtp", "vts", "vtu", "vti", "vtr")[j % 6]
+            mesh = {"vtu": {"npts": 1500, "ncells": 1100, "types": [10, 12, 10, 14, 13]}, "vtp": {"npts": 1200, "Polys": [1300, 3], "Strips": [40, 4]},
+                    "vts": {"cells": [11, 10, 9]}, "vti": {"cells": [35, 34, 0]}, "vtr": {"cells": [0, 1100, 0]}}[kind]
+            out.append(({"kind": kind, "mesh": mesh, "fields": fields, "cfg": cfg(fmt, codec, B, hs=(8, 4)[j % 2], bo=bo),
+                         "opts": {"app_order": ("doc", "reverse")[j % 2]}},
+                        ["p6-items>1000", "p6-blocks>16", "p6-block-size-%s-multiple-of-item" % ("a" if B % 8 == 0 else "no")]))
+    # D. > 65536 items, blocks of VTK's default size (32768) and larger, every file type
+    lf = [["P", "pa", "Float64", 3, 1], ["C", "ca", "UInt8", 1, 3], ["P", "pb", "Int16", 1, 4]]
+    kinds = list(P6_LARGE)
+    if ctx.tier == "quick":
+        s = rng.randrange(len(P6_LARGE_CFGS))
+        sel = [(kinds[k], P6_LARGE_CFGS[(s + k) % len(P6_LARGE_CFGS)]) for k in range(len(kinds))]
+        sel += [("vtu", P6_LARGE_CFGS[(s + 5) % len(P6_LARGE_CFGS)]), ("vtu", P6_LARGE_CFGS[(s + 6) % len(P6_LARGE_CFGS)])]
+    else:
+        sel = [(k, c) for k in kinds for c in P6_LARGE_CFGS]
+    for j, (kind, c) in enumerate(sel):
+        out.append(({"kind": kind, "mesh": P6_LARGE[kind], "fields": lf, "cfg": dict(c, joint=True),
+                     "opts": {"app_order": ("doc", "reverse")[j % 2], "ws": 4 if c["fmt"] == "ascii" else j % 2}},
+                    ["p6-items>65536"] + (["p6-block=%d" % c["B"]] if c["comp"] else [])))
+    return out
+
+
+def check_p6g1i(ctx, tmp):
+    from fcv import vtkxml_p6g1i as W
+    cases = p6_cases(ctx)
+    evaluated = []
+    for case, tags in cases:
+        d, impl, exp = p6_eval(case, tmp)
+        evaluated.append((case, d))
+        ctx.case(("p6", repr(sorted((k, repr(v)) for k, v in case.items()))), nontrivial=True,
+                 tags=["p6g1i", "file-" + case["kind"], "p6-fmt-" + case["cfg"]["fmt"] + "/" + (case["cfg"]["comp"] or "none") + "/" + case["cfg"]["bo"]] + tags,
+                 sample={"kind": case["kind"], "cfg": case["cfg"], "opts": case.get("opts"), "mesh": case["mesh"], "diff": d})
+        if d:
+            p6_report(ctx, case, d, impl, exp, tmp, "directed batch p6g1i")
+    # E. reader state: two files read alternately; one path re-written with new content
+    small = [c for c, _ in cases if c["mesh"] is P6_SMALL.get(c["kind"])]
+    pairs = [(small[k], small[-1 - k]) for k in range(0, ctx.scale(12, 60))]
+    for a, b in pairs:
+        for seq, tag in (((a, b, a, b), "alternate"), ((a, dict(a, fields=[f[:4] + [f[4] + 50] for f in a["fields"]]), a), "same-path-new-content")):
+            bad = None
+            for step, c in enumerate(seq):
+                d, impl, exp = p6_eval(c, tmp, "p6state" if tag != "alternate" else f"p6state{step % 2}")
+                if d and bad is None:
+                    bad = (step, c, d, impl, exp)
+            ctx.case(("p6state", tag, repr(a["cfg"]), repr(b["cfg"]), a["kind"], b["kind"], repr(a.get("opts")), repr(b.get("opts"))),
+                     nontrivial=True, tags=["p6g1i", "p6-reader-state-" + tag])
+            if bad:
+                step, c, d, impl, exp = bad
+                ctx.violation({"op": "p6g1i-seq", "seq": list(seq), "step": step}, brief(impl, d), brief(exp, d),
+                              what=f"reader state ({tag}): read number {step + 1} of the sequence differs from the logical content of its file in {d[:6]}")
+    # F. the payload encoder of the Python-side writer vs the Lean spec writer (small arrays, whole configuration matrix)
+    if ctx.driver_ok:
+        lines, meta = [], []
+        k = 0
+        for t in TYPE_NAMES:
+            for n in (0, 1, 2, 5, 17):
+                arr = W.values(t, n, 70 + n)
+                for fmtb64 in (True, False):
+                    k += 1
+                    c = {"comp": (None, CODECS[k % len(CODECS)])[k % 2], "B": (3, 8, 16, 7)[k % 4], "hs": (4, 8)[(k // 2) % 2],
+                         "bo": ("le", "be")[(k // 4) % 2], "joint": bool(k % 3) or not fmtb64}
+                    if c["comp"]:
+                        c["joint"] = True
+                    lines.append(W.lean_line(arr, c, fmtb64))
+                    meta.append((t, n, c, fmtb64, W.encode_binary(arr, c, fmtb64)))
+        for rep, (t, n, c, b64, mine) in zip(ctx.lean(lines), meta):
+            ctx.dist["p6-payload-vs-lean-spec-writer"] += 1
+            enc = rep.get("enc", "E")
+            if enc.startswith("E") or unhx(enc.split(",")[0]) != mine:
+                ctx.inconsistent({"op": "p6-payload", "type": t, "n": n, "cfg": c, "b64": b64}, hx(mine)[:200], enc[:200])
+
+
 # ------------------------------------------------------------------ entry points
 
 def run(ctx):
@@ -1489,6 +1689,9 @@ def run(ctx):
         check_numpy_text_parser(ctx)
         # ---- shipped files
         check_shipped(ctx)
+        # ---- phase 6 (G1/io): directed batch through the Python-side writer
+        if not P6G_OFF:
+            check_p6g1i(ctx, tmp)
         # ---- shrink what was found
         shrunk = []
         for v in ctx.spec_viol[:5]:
@@ -1581,6 +1784,20 @@ def replay(ctx, payload) -> int:
         got, want = int(Base64Encoder().encoded_bytes(case["n"])), 4 * ((case["n"] + 2) // 3)
         print(f"replay: encoded_bytes({case['n']}) = {got}, base64 length = {want}")
         bad = got != want
+    elif case.get("op") in ("p6g1i", "p6g1i-seq"):
+        tmp = tempfile.mkdtemp(prefix="fcv_c05r_")
+        try:
+            seq = case["seq"] if case["op"] == "p6g1i-seq" else [case]
+            bad = False
+            for step, c in enumerate(seq):
+                d, impl, exp = p6_eval(c, tmp, "p6state")
+                print(f"replay: p6g1i read {step + 1}: kind={c['kind']} cfg={c['cfg']} opts={c.get('opts')} differences={d}")
+                if d:
+                    print("  implementation:", brief(impl, d))
+                    print("  logical content:", brief(exp, d))
+                    bad = True
+        finally:
+            shutil.rmtree(tmp, ignore_errors=True)
     elif case.get("op") in ("b64decode", "b64encode") or "shipped" in case:
         print("replay: correspondence item", {k: v for k, v in case.items()})
         run(ctx)
